@@ -316,6 +316,8 @@ def correspondence(rep, rng, tier):
     _matching(rep, rng, tier)
     history_search(rep, rng, tier)
     collision_search(rep, rng, tier)
+    from .. import tsorder
+    tsorder.section(rep, rng, tier, 'C10')
 
 
 def _matching(rep, rng, tier):
@@ -328,6 +330,13 @@ def replay(path):
     with open(path) as fd:
         r = json.load(fd)
     rp = r['replay']
+    if rp.get('section') == 'timestamp-order':
+        from .. import tsorder
+        bad, lines = tsorder.replay(rp)
+        print('\n'.join(lines))
+        if bad:
+            print(f'VIOLATION property=C10 replay={path}')
+        return 1 if bad else 0
     if rp.get('section') == 'result-collisions':
         lookups = [['/p/one', 11], ['/q/two', 22], ['/r/three', 33], ['/s/4', 44], ['/t/5', 55], ['/u/6', 66]]
         n, b = rp['decoder'], rp['start']
